@@ -6,6 +6,7 @@
 -/
 import MTVerif.Lemmas.TdSize
 import MTVerif.Lemmas.Enforce
+import MTVerif.Props.C11
 namespace MT.C06
 open MT
 
@@ -81,6 +82,23 @@ theorem enforce_identity_at_own_limit (k : Nat) (ts : List Ty) (h : ∀ t ∈ ts
 theorem enforce_never_narrows (sub : ClassId → ClassId → Bool) (ao : Bool) (hrefl : ∀ c, sub c c = true) (k : Nat) (t : Ty) (v : Val)
     (hw : t.wf = true) (h : conforms sub ao t v = true) : conforms sub ao (enforce k t) v = true :=
   enforce_widens sub ao hrefl k t v hw h
+
+/-! ### the TypedDict classes rendered into the stub -/
+
+open MT.Render in
+/-- C06 for "the TypedDict classes rendered into the stub": every class `ReplaceTypedDictsWithStubs` generates for a type whose
+    TypedDicts have at most `k` keys declares at most `k` fields (a `NonTotal` subclass and its base together exactly the keys of
+    their TypedDict: `mixed_td_total_keys`) -/
+theorem stub_classes_bounded (nm : Names) (sm : Ty → List (List String)) (k : Nat) (hint : String) (t : Ty) (h : t.tdOk k = true) :
+    ∀ d ∈ classesT nm sm hint t, d.fields.length ≤ k := classesT_fields_le nm sm k hint t h
+
+open MT.Render in
+/-- … and at limit 0 no class is generated at all -/
+theorem stub_classes_none_at_zero (nm : Names) (sm : Ty → List (List String)) (hint : String) (t : Ty) (h : t.tdOk 0 = true) :
+    classesT nm sm hint t = [] := by
+  have hn := MT.C11.no_td_no_classes hint t (tdOk_zero t h)
+  rw [← MT.C11.classesT_names nm sm hint t] at hn
+  exact List.map_eq_nil_iff.mp hn
 
 /-- when shapes are mixed every TypedDict is rewritten to Dict, at every depth the generic rewriter reaches -/
 theorem mixed_shapes_no_typed_dict (t : Ty) : (tdToDict t).hasTD = false := tdToDict_noTD t
